@@ -4,11 +4,13 @@ use serde_json::Value;
 
 pub mod c01;
 pub mod c02;
+pub mod c17;
 
 pub fn run(ctx: &Ctx, sh: &mut Shard) {
     match ctx.prop.as_str() {
         "C01" => c01::run(ctx, sh),
         "C02" => c02::run(ctx, sh),
+        "C17" => c17::run(ctx, sh),
         p => {
             eprintln!("no monitor for {p}");
             std::process::exit(2);
@@ -19,6 +21,7 @@ pub fn replay(v: &Value, sh: &mut Shard) {
     match v["property"].as_str().unwrap_or("") {
         "C01" => c01::replay(v, sh),
         "C02" => c02::replay(v, sh),
+        "C17" => c17::replay(v, sh),
         p => {
             eprintln!("no replay for {p}");
             std::process::exit(2);
